@@ -402,3 +402,28 @@ def _bisect_failing(df, date, targets, params, functions, rounding, kw):
 
     rec(list(targets))
     return bad
+
+
+@functools.lru_cache(maxsize=None)
+def regime_dates(lo="2009-01-01", hi="2025-12-31"):
+    """A smallest set of dates in [lo, hi] such that every dated version of every internal rule (policy_info
+    start_date / end_date) that is in force somewhere in the window is in force on at least one of them
+    (interval stabbing over the registry as it is in the tree under test)."""
+    import datetime
+
+    from _gettsim.functions_loader import load_internal_functions
+    from _gettsim.shared import TIME_DEPENDENT_FUNCTIONS
+
+    load_internal_functions()
+    a, b = datetime.date.fromisoformat(lo), datetime.date.fromisoformat(hi)
+    wins = set()
+    for fl in TIME_DEPENDENT_FUNCTIONS.values():
+        for f in fl:
+            s, e = f.__info__["start_date"], f.__info__["end_date"]
+            if e >= a and s <= b:
+                wins.add((max(s, a), min(e, b)))
+    pts = []
+    for s, e in sorted(wins, key=lambda w: w[1]):
+        if not pts or pts[-1] < s:
+            pts.append(e)
+    return tuple(d.isoformat() for d in pts)
